@@ -653,7 +653,10 @@ func streamLayout(c *cli.Ctx, r *emit.Rng) error {
 	for i := 0; i < n; i++ {
 		cb := genCombo(r, all, i)
 		col := newGo(cb)
-		sn, fq, ok := prometheus.VerifC18Layout(col)
+		sn, fq, stale, ok := prometheus.VerifC18Layout(col)
+		if len(stale) > 0 {
+			direct = append(direct, map[string]interface{}{"index": i, "what": fmt.Sprintf("sampleMap entries %q do not point into the sample buffer: %s", stale, cb.what)})
+		}
 		if !ok {
 			direct = append(direct, map[string]interface{}{"index": i, "what": "NewGoCollector did not return a *goCollector: " + cb.what})
 			continue
@@ -716,6 +719,70 @@ func genCombo(r *emit.Rng, all []metrics.Description, i int) combo {
 	}
 	cb.what = fmt.Sprintf("rules=%q deny=%v memstatsDisabled=%v oldFlags=%d", cb.srcs, cb.deny, cb.memOff, cb.oldFlags)
 	return cb
+}
+
+func mkCombo(srcs []string, deny []bool, memOff bool) combo {
+	cb := combo{srcs: srcs, deny: deny, memOff: memOff, oldFlags: -1}
+	cb.what = fmt.Sprintf("rules=%q deny=%v memstatsDisabled=%v oldFlags=%d", cb.srcs, cb.deny, cb.memOff, cb.oldFlags)
+	return cb
+}
+
+func exact(name string) string { return "^" + regexp.QuoteMeta(name) + "$" }
+
+// the exact-sum companions NewGoCollector knows (defaultGoCollectorOptions)
+var sumCompanion = map[string]string{
+	"/gc/heap/allocs-by-size:bytes": "/gc/heap/allocs:bytes",
+	"/gc/heap/frees-by-size:bytes":  "/gc/heap/frees:bytes",
+}
+
+// systematicCombos: rule sets over INDIVIDUAL runtime/metrics names, each with both MemStats settings:
+// every name alone; every pair of histogram metrics; histograms with / without their exact-sum companion
+// (and with the other histogram's companion); allow-all or allow-group minus one individual name.
+// The size of the sample buffer (exposed + companions + MemStats sources) differs between these.
+func systematicCombos(all []metrics.Description) []combo {
+	var out []combo
+	both := func(srcs []string, deny []bool) {
+		out = append(out, mkCombo(srcs, deny, false), mkCombo(srcs, deny, true))
+	}
+	var hists []string
+	for _, d := range all {
+		both([]string{exact(d.Name)}, []bool{false})
+		if d.Kind == metrics.KindFloat64Histogram {
+			hists = append(hists, d.Name)
+		}
+	}
+	for i := range hists {
+		for j := i + 1; j < len(hists); j++ {
+			both([]string{exact(hists[i]), exact(hists[j])}, []bool{false, false})
+		}
+	}
+	var comps []string
+	for _, h := range hists {
+		if c, ok := sumCompanion[h]; ok {
+			comps = append(comps, c)
+		}
+	}
+	sort.Strings(comps)
+	for _, h := range hists {
+		for _, c := range comps {
+			both([]string{exact(h), exact(c)}, []bool{false, false})
+			both([]string{"/.*", exact(c)}, []bool{false, true})
+			both([]string{`^/gc/heap/.*`, exact(c)}, []bool{false, true})
+		}
+		both([]string{"/.*", exact(h)}, []bool{false, true})
+		both([]string{exact(h), exact(h)}, []bool{false, true})
+	}
+	if len(comps) > 0 {
+		var srcs []string
+		var deny []bool
+		for h := range sumCompanion {
+			srcs, deny = append(srcs, exact(h)), append(deny, false)
+		}
+		sort.Strings(srcs)
+		both(srcs, deny)
+		both(append(append([]string{}, srcs...), comps...), append(append([]bool{}, deny...), make([]bool, len(comps))...))
+	}
+	return out
 }
 
 // expected exposure of a runtime metric name under the collector's rule list (default rule first)
@@ -788,6 +855,28 @@ func decreased(a, b snap) string {
 	return ""
 }
 
+// collectRecovered runs Describe and Collect of the collector in this goroutine; a panic is returned as text.
+func collectRecovered(col prometheus.Collector) (what string) {
+	defer func() {
+		if e := recover(); e != nil {
+			what = fmt.Sprintf("panic in Collect: %v", e)
+		}
+	}()
+	ch := make(chan prometheus.Metric, 64)
+	done := make(chan struct{})
+	go func() {
+		for range ch {
+		}
+		close(done)
+	}()
+	func() {
+		defer close(ch)
+		col.Collect(ch)
+	}()
+	<-done
+	return ""
+}
+
 // register with a pedantic registry and gather concurrently; returns failures and the family names seen
 func exercise(col prometheus.Collector, goroutines, rounds int) (fails []string, names map[string]bool, reg *prometheus.Registry) {
 	names = map[string]bool{}
@@ -797,6 +886,26 @@ func exercise(col prometheus.Collector, goroutines, rounds int) (fails []string,
 	}
 	var mu sync.Mutex
 	var wg sync.WaitGroup
+	// pre-flight: Collect called directly and concurrently, so that a panic is caught here (inside Gather it
+	// would be raised in a goroutine of the registry and take the driver down)
+	for g := 0; g < goroutines; g++ {
+		wg.Add(1)
+		go func() {
+			defer wg.Done()
+			for k := 0; k < 2; k++ {
+				if p := collectRecovered(col); p != "" {
+					mu.Lock()
+					fails = append(fails, p)
+					mu.Unlock()
+					return
+				}
+			}
+		}()
+	}
+	wg.Wait()
+	if len(fails) > 0 {
+		return fails, names, reg
+	}
 	all := make([][]snap, goroutines)
 	for g := 0; g < goroutines; g++ {
 		wg.Add(1)
@@ -942,11 +1051,24 @@ func streamCollectors(c *cli.Ctx, r *emit.Rng) error {
 			derived[d.Name] = fq
 		}
 	}
-	n := 60 * c.Scale
+	sys := systematicCombos(all)
+	n := len(sys) + 60*c.Scale
 	for i := 0; i < n; i++ {
-		cb := genCombo(r, all, i)
+		var cb combo
+		if i < len(sys) {
+			cb = sys[i]
+		} else {
+			cb = genCombo(r, all, i-len(sys))
+		}
 		col := newGo(cb)
-		fails, names, reg := exercise(col, 4, 4)
+		if sn, _, stale, ok := prometheus.VerifC18Layout(col); ok && len(stale) > 0 {
+			fail(i, fmt.Sprintf("Go collector [%s]: sampleMap entries %q do not point into the sample buffer (%d samples)", cb.what, stale, len(sn)))
+		}
+		rounds := 4
+		if i < len(sys) {
+			rounds = 2
+		}
+		fails, names, reg := exercise(col, 4, rounds)
 		if len(fails) == 0 {
 			// reported only when it repeats: the runtime's own counters are read in separate calls
 			if b := bracket(reg, all, derived); len(b) > 0 {
@@ -988,6 +1110,11 @@ func streamCollectors(c *cli.Ctx, r *emit.Rng) error {
 		tags := []string{"collector:go", fmt.Sprintf("rules:%d", len(cb.srcs)), fmt.Sprintf("memstats-disabled:%v", cb.memOff)}
 		if cb.oldFlags >= 0 {
 			tags = append(tags, "deprecated-flags")
+		}
+		if i < len(sys) {
+			tags = append(tags, "rules:individual-names")
+		} else {
+			tags = append(tags, "rules:random")
 		}
 		w.Add(emit.Tup(emit.I(0), emit.SL(cb.srcs), emit.L(boolsT(cb.deny)), emit.B(cb.memOff), emit.I(cb.oldFlags)), nexp >= 4, tags...)
 	}
